@@ -48,6 +48,11 @@ Theorem checked_arithmetic_in_range : forall fa op a b v,
 Proof. exact arith_in_range. Qed.
 Print Assumptions checked_arithmetic_in_range.
 
+Theorem arithmetic_pre_refuted : exists op a b, in_i64 a /\ in_i64 b /\ arith_pre Checked op a b = Panic
+  /\ eval_binop fa_none op (VInt a) (VInt b) = None.
+Proof. exact arith_pre_refuted_l. Qed.
+Print Assumptions arithmetic_pre_refuted.
+
 (** ** Filter *)
 Theorem filter_spec_phys : forall fa envf p cs,
   rows_of (drain_filter fa envf p cs) = filter (row_passes fa envf p) (phys_rows cs).
@@ -191,6 +196,16 @@ Print Assumptions with_distinct.
 Theorem return_distinct_refuted : exists rows, return_distinct_query rows <> dedup_from [] rows.
 Proof. exact return_distinct_refuted_l. Qed.
 Print Assumptions return_distinct_refuted.
+
+Theorem where_without_range_path : forall fa tab p rows, range_pred p = None ->
+  rows_of (where_chunks fa tab p rows) = filter (row_passes fa (tab_env tab) p) rows.
+Proof. exact where_no_range_l. Qed.
+Print Assumptions where_without_range_path.
+
+Theorem range_path_refuted : exists tab rows p, bpred p = true /\
+  rows_of (where_chunks fa_none tab p rows) <> filter (row_passes fa_none (tab_env tab) p) rows.
+Proof. exact range_path_refuted_l. Qed.
+Print Assumptions range_path_refuted.
 
 (** non-vacuity: the hypotheses are met by non-trivial inputs *)
 Example nv_bpred : bpred (EBin And (EBin Lt (EBin Add (EVar 0) (ELit (VInt 1))) (ELit (VInt 5))) (EUn Not (EVar 1))) = true
